@@ -18,6 +18,7 @@ REVIEWED_UNWRAPS = {
 def run(db, chk):
     dedup_key_rule(db, chk)
     partial_name_rule(db, chk)
+    partial_name_single_match_rule(db, chk)
     fns = [f for f in db.by_crate["gix_refspec"] if "::match_group::" in f.name and f.kind != "promoted"]
     chk.floor("match_group functions", len(fns), 20)
     nranges = 0
@@ -109,6 +110,46 @@ def partial_name_rule(db, chk):
     need = [b"refs/", b"refs/tags/", b"refs/heads/", b"refs/remotes/", b"HEAD"]
     chk.ob("partial-name-tries-every-expansion", "expand_partial_name prefixes", all(n in txt for n in need),
            "git's ref_rev_parse_rules prefixes/suffix missing: %s" % [n.decode() for n in need if n not in txt], "%s:%d" % (e.file, e.line), key="partial-name|rules")
+
+
+def partial_name_single_match_rule(db, chk):
+    """git resolves a partial-name source (`main`) to ONE remote reference: the one matched by the earliest of its expansion rules
+    (refname_match/find_ref_by_name_abbrev).  Matching every item with a per-item predicate and pushing each hit maps refs/tags/main,
+    refs/heads/main and refs/remotes/main onto the same destination.  In match_remotes the per-item loop that pushes every match must not be
+    entered for partial-name specs: some test whose outcome derives from `is this a partial name` cuts it off, and on that branch a minimum over
+    the rule rank is taken."""
+    f = db.one(r"^gix_refspec::match_group::<impl gix_refspec::match_group::types::MatchGroup<'a>>::match_remotes$")
+    fl = Flow(f)
+    inner = [c for c in f.calls_to(r"Matcher::<'a>::matches_lhs$|Matcher<'a>>::matches_lhs$|::matches_lhs$") if any(c.block in l["body"] for l in f.loops())]
+    item_loops = []
+    for c in inner:
+        lps = sorted([l for l in f.loops() if c.block in l["body"]], key=lambda l: len(l["body"]))
+        if len(lps) >= 2:
+            item_loops.append((c, lps[0], lps[1]))
+    chk.floor("match_remotes: per-item loop that pushes every match", len(item_loops), 1)
+    fam = {g.name: g for g in db.closures_of(f)}
+    def is_partial_test(c):
+        if c.is_(r"::has_partial_name_source$|::is_partial_name$|partial_name"):
+            return True
+        for a in c.args:
+            for r in (fl.roots(a, stop_named=False) if "p" in a else []):
+                if r[0] == "const" and isinstance(r[1], str) and r[1].startswith("agg:"):
+                    g = fam.get(r[1][4:].rstrip(":"))
+                    if g is not None and any(x.is_(r"::has_partial_name_source$|::is_partial_name$|partial_name") for x in g.calls()):
+                        return True
+        return False
+    tests = [c for c in f.calls() if is_partial_test(c)]
+    ranks = [c for c in f.calls() if c.is_(r"Iterator>?::(min_by_key|min_by|min)$|::min_by_key$")]
+    for c, li, lo in item_loops:
+        ok = False
+        for t in tests:
+            e = fl.result_edges(t)
+            for _, tgt in e["good"]:
+                if li["header"] not in f.reach_from(tgt, avoid={lo["header"]}):
+                    ok = True
+        chk.ob("partial-name-maps-one-source", "match_remotes per-item loop@%d" % c.line, ok and bool(ranks),
+               "partial-name specs go through the loop that pushes every matching item (%d partial-name test(s), %d minimum-by-rank call(s)): `main` maps refs/tags/main, refs/heads/main and refs/remotes/main at once, git maps only the first rule that matches" % (len(tests), len(ranks)),
+               c.where(), key="partial-name-single|match_remotes")
 
 
 def dedup_key_rule(db, chk):
